@@ -76,7 +76,10 @@ def case_out_buffers(rep):
         mon = "material.out"
         models = {"NeoHooke(mu,bulk)": fem.NeoHooke(mu=1.3, bulk=2.7), "NeoHooke(mu)": fem.NeoHooke(mu=1.3),
                   "Volumetric(bulk)": fem.Volumetric(bulk=2.7), "NeoHookeCompressible(mu,lmbda)": fem.NeoHookeCompressible(mu=1.3, lmbda=2.1),
-                  "NeoHookeCompressible(mu)": fem.NeoHookeCompressible(mu=1.3)}
+                  "NeoHookeCompressible(mu)": fem.NeoHookeCompressible(mu=1.3),
+                  # composites hand their keyword arguments on to the members (which document out=)
+                  "Composite(NeoHooke&Volumetric)": fem.NeoHooke(mu=1.3) & fem.Volumetric(bulk=2.7),
+                  "Composite(NeoHookeCompressible&Volumetric)": fem.NeoHookeCompressible(mu=0.7) & fem.Volumetric(bulk=1.9)}
         batch = (2, 3)
         for name, um in models.items():
             F = batch_F(rng, batch)
